@@ -161,6 +161,15 @@ static void gen_c03(const std::string& tier, std::vector<Case>& cases) {
             for (auto& d : devs) { Case c; c.fund = S.fund; c.tx = d.second; c.select = -1; c.label = base + " " + d.first; c.klass = "large:" + klass_of(d.first); cases.push_back(c); }
         }
     }
+    // multi-signature spends whose signatures use different hash types (every ordered pair), one-input and three-input transactions: each
+    // check derives its own digest; the spend is valid
+    for (std::string type : {"p2wsh", "p2sh-multisig", "p2sh-p2wsh"}) for (int h1 : {1, 2, 3, 0x81, 0x82, 0x83}) for (int h2 : {1, 2, 3, 0x81, 0x82, 0x83}) for (int nin : {1, 3}) {
+        if (!th && nin == 1 && !(h1 == 1 || h2 == 1)) continue;
+        gen::Shape sh = shape_of(type, nin == 1 ? 0 : 1, 1); sh.nin = nin; sh.pos = nin == 1 ? 0 : 1; sh.ht2 = h2;
+        gen::Spend S = gen::make_spend(type, sh, uint8_t(h1), 1, false);
+        char nm[96]; snprintf(nm, 96, "%s %d inputs, signatures with hash types %02x,%02x", type.c_str(), nin, h1, h2);
+        Case c; c.fund = S.fund; c.tx = S.tx; c.label = nm; c.klass = "valid-mixed-hashtypes"; cases.push_back(c);
+    }
     // signature-free witness scripts / leaves: small witness items whose hex spelling is all digits, and a script of the P2SH shape
     // (P2SH evaluation applies to a scriptPubKey only, never to a witness script or a tapscript leaf)
     for (std::string type : {"p2wsh-checksig", "p2tr-script"}) for (std::string kind : {"data", "p2sh-shaped"}) for (bool annex : {false, true}) {
@@ -334,6 +343,29 @@ static void gen_c05(const std::string& tier, std::vector<TapCase>& out) {
             }
         }
     }
+    // nodes that differ from the running hash in ONE byte, by +1 or -1, at every byte position: the ordering of the pair is decided by exactly
+    // that byte (a comparison that looks at a prefix only, stops at a zero byte or treats bytes as signed goes wrong for some position), on
+    // the first and on the second level of the path; and the same commitment with the pair hashed in the wrong order, which must fail
+    for (const bytes& script : {bytes{0x51}, bytes{}}) for (int level = 0; level < 2; level++) for (int pos = 0; pos < 32; pos++) for (int delta : {-1, 1})
+      for (int force : {-1}) {
+        bytes k = tapleaf_hash(0xc0, script);
+        std::vector<bytes> path;
+        if (level == 1) { bytes n0 = sha256(bytes{'n', '0'}); path.push_back(n0); k = tapbranch_hash(k, n0); }
+        // `force`: the deciding byte of the running hash is first set to a given value in the NODE only when that keeps the one-byte difference
+        bytes node = k; int v = k[pos] + delta; if (v < 0 || v > 255) continue;
+        if (force >= 0 && !(v == force || k[pos] == force)) continue;
+        node[pos] = uint8_t(v);
+        path.push_back(node);
+        bytes kk = tapbranch_hash(k, node);
+        bytes q; int par; if (!taproot_output_key(ik.xonly, kk, q, par)) continue;
+        bytes control{uint8_t(0xc0 | par)}; control.insert(control.end(), ik.xonly.begin(), ik.xonly.end()); for (auto& n : path) control.insert(control.end(), n.begin(), n.end());
+        std::string base = "near-equal node: level " + std::to_string(level) + " byte " + std::to_string(pos) + (delta > 0 ? " +1" : " -1");
+        out.push_back({control, script, q, base + " valid", "near-equal-node"});
+        // the pair in the wrong order: hash it by hand the other way round and commit to that
+        bytes lo = std::min(k, node), hi = std::max(k, node);
+        bytes wrong = ref::tagged_hash("TapBranch", [&] { bytes b = hi; b.insert(b.end(), lo.begin(), lo.end()); return b; }());
+        bytes q2; int par2; if (taproot_output_key(ik.xonly, wrong, q2, par2)) { bytes c2 = control; c2[0] = uint8_t(0xc0 | par2); out.push_back({c2, script, q2, base + " committed with the pair in the wrong order", "near-equal-node-wrong-order"}); }
+      }
     // internal keys off the curve / >= p (commitment must fail, not crash)
     for (const char* x : {"EEFDEA4CDB677750A420FEE807EACF21EB9898AE79B9768766E4FAA04A2D4A34", "FFFFFFFFFFFFFFFFFFFFFFFFFFFFFFFFFFFFFFFFFFFFFFFFFFFFFFFEFFFFFC30", "0000000000000000000000000000000000000000000000000000000000000000"}) {
         bytes control{0xc0}; bytes xk = unhex(x); control.insert(control.end(), xk.begin(), xk.end());
